@@ -1,16 +1,21 @@
-"""C17 location lists: X1 operand table exhaustiveness against DWARF 5, X2 ?OP_x scans all operations."""
+"""C17 location lists: X1 operand table exhaustiveness against DWARF 5, X3 element/operation laws by source evaluation, U2 sorted seen-lists."""
 import r_tables
+import r_dw
 from common import apply, maybe_mutants
 
 
 def run(prog, rep, tier):
     rep.clause = ("X1: for every DW_OP_* enumerator of the system dwarf.h (177), the number (and signedness) of operand values that "
                   "locexpr_op_values<0>/<1> yield (read from the switch: single_constant/two_constants/select<N>/null_producer, GNU case ranges "
-                  "expanded) equals the DWARF 5 operand table frozen in the checker; X2: ?OP_x on an element loops over [0, exprlen) comparing atoms.")
-    rep.not_decided = ("order of ranges, offsets, `length` = number of `elem`, abbreviation/DIE agreement (dwpp_abbrev_offset reads a libdw-private "
-                       "layout); these depend on libdw results for the input.")
+                  "expanded) equals the DWARF 5 operand table frozen in the checker; X3: locexpr_producer::next, the elem/relem producer and the words "
+                  "length, address, offset, label, ?OP_x (on elements and on operations), interpreted from their source against an abstract "
+                  "dwarf_getlocations (lists of 0-3 entries with ordinary, empty and 0..-1 ranges and 0-3 operations each): every entry libdw "
+                  "serves is yielded once, in stored order, numbered from 0, with its own range and operations; length = number of elem results; "
+                  "relem = elem reversed; offset/label report the stored offset/opcode in their domains; ?OP_x holds iff some operation has the "
+                  "opcode; address is exactly the range.")
+    rep.not_decided = ("what libdw itself returns for a given file; abbreviation/DIE agreement (dwpp_abbrev_offset reads a libdw-private layout).")
     rep.assumptions.append("DWARF 5 section 7.7.1 operand table as transcribed in rules/r_tables.py (OP_TABLE); size+block operands count as one value")
     apply(rep, "X1", "operand decoding covers every DW_OP of dwarf.h", r_tables.x1(prog), 150)
     apply(rep, "U2", "seen-lists that are binary-searched are kept sorted", r_tables.u2(prog), 2)
-    apply(rep, "X2", "?OP_x scans all operations of an element", r_tables.x2(prog), 1)
+    apply(rep, "X3", "location-list elements, their operations and the words on them (source evaluation against an abstract libdw)", r_dw.x3(prog, tier), 9)
     maybe_mutants("C17", rep, tier)
